@@ -596,6 +596,9 @@ func (p *Prog) inlineUnknownHelpers() error {
 	}
 	for fn := range touched {
 		if err := checkFunc(fn); err != nil {
+			if os.Getenv("SLUGCHECK_DEBUG") != "" {
+				fn.WriteTo(os.Stderr)
+			}
 			return cerrf("ssainline: %v", err)
 		}
 		delete(domCache, fn)
@@ -994,6 +997,7 @@ func threadContinuation(F *ssa.Function, K *ssa.BasicBlock) {
 				continue
 			}
 			memo := map[*ssa.BasicBlock]ssa.Value{}
+			depth := 0
 			var made []*ssa.Phi
 			var atStart func(B *ssa.BasicBlock) ssa.Value
 			atEnd := func(B *ssa.BasicBlock) ssa.Value {
@@ -1014,8 +1018,15 @@ func threadContinuation(F *ssa.Function, K *ssa.BasicBlock) {
 					memo[B] = kv
 					return kv
 				case 1:
-					memo[B] = kv // cut cycles through single-predecessor chains
+					// (every live cycle passes a block with two predecessors, whose phi is in the memo before
+					// its edges are filled; a cycle of single-predecessor blocks only is unreachable code)
+					depth++
+					if depth > 4*len(F.Blocks)+16 {
+						depth--
+						return kv
+					}
 					v := atEnd(B.Preds[0])
+					depth--
 					memo[B] = v
 					return v
 				}
@@ -1154,7 +1165,91 @@ func threadContinuation(F *ssa.Function, K *ssa.BasicBlock) {
 		}
 	}
 	delete(domCache, F)
+	removeUnreachable(F)
 	simplifyPhis(F)
+}
+
+// removeUnreachable: blocks that no path from the entry (or the recover block)
+// reaches any more — what lay behind a continuation all of whose entries were
+// led elsewhere — are taken out, with their edges into what remains.
+func removeUnreachable(F *ssa.Function) {
+	if len(F.Blocks) == 0 {
+		return
+	}
+	live := map[*ssa.BasicBlock]bool{F.Blocks[0]: true}
+	work := []*ssa.BasicBlock{F.Blocks[0]}
+	if F.Recover != nil {
+		live[F.Recover] = true
+		work = append(work, F.Recover)
+	}
+	for len(work) > 0 {
+		b := work[len(work)-1]
+		work = work[:len(work)-1]
+		for _, s := range b.Succs {
+			if !live[s] {
+				live[s] = true
+				work = append(work, s)
+			}
+		}
+	}
+	if len(live) == len(F.Blocks) {
+		return
+	}
+	var ops [16]*ssa.Value
+	for _, U := range F.Blocks {
+		if live[U] {
+			continue
+		}
+		for _, S := range U.Succs {
+			if !live[S] {
+				continue
+			}
+			for j := len(S.Preds) - 1; j >= 0; j-- {
+				if S.Preds[j] != U {
+					continue
+				}
+				S.Preds = append(S.Preds[:j:j], S.Preds[j+1:]...)
+				for _, in := range S.Instrs {
+					sp, ok := in.(*ssa.Phi)
+					if !ok {
+						break
+					}
+					if j >= len(sp.Edges) {
+						continue
+					}
+					old := sp.Edges[j]
+					sp.Edges = append(sp.Edges[:j:j], sp.Edges[j+1:]...)
+					still := false
+					for _, e := range sp.Edges {
+						if e == old {
+							still = true
+						}
+					}
+					if !still {
+						removeReferrer(old, sp)
+					}
+				}
+			}
+		}
+		for _, in := range U.Instrs {
+			for _, op := range in.Operands(ops[:0]) {
+				if *op != nil {
+					removeReferrer(*op, in)
+				}
+			}
+		}
+	}
+	out := F.Blocks[:0]
+	for _, b := range F.Blocks {
+		if live[b] {
+			out = append(out, b)
+		}
+	}
+	F.Blocks = out
+	for i, b := range F.Blocks {
+		b.Index = i
+	}
+	delete(domCache, F)
 }
 
 // simplifyPhis: a phi all of whose edges are one value (or itself) is that value.
